@@ -1,7 +1,7 @@
 """C18 — token bucket (offline oracle with one-sided real-time bounds, plain build)."""
 from vf import gen, corecheck as cc, framework as fw, model_tb, model_registry
 
-RULE = ("tokenbucket profile: a running module with rate r in {100,200,500,1000}/s and burst b in {1,2,3,5,10,20}; bursts of 1..3b+8 "
+RULE = ("tb_refused_ownership profile: registrations carrying auto-close / auto-free refused for lack of a token - nothing the caller handed in may be closed or freed during the refused call, and the same registrations succeed once the limit is lifted. tokenbucket profile: a running module with rate r in {100,200,500,1000}/s and burst b in {1,2,3,5,10,20}; bursts of 1..3b+8 "
         "cheap token-consuming calls (batch size, tell, publish, (un)subscribe, become/unbecome) issued from driver steps while the "
         "loop keeps dispatching; exhaustion followed by > 25 token periods of dispatching and a probe; re-configuration while 0-3 "
         "user timers are registered; rate 0 and stop/start followed by 3b+22 back-to-back calls. Oracle, with the harness timestamps "
@@ -25,6 +25,11 @@ def run(tier):
         sc = gen.gen_tokenbucket(s)
         c = cc.Case()
         c.sc, c.profile, c.mode, c.seed = sc, "tokenbucket", ("loop" if i % 2 else "dispatch"), s
+        cases.append(c)
+
+    for k in range(24 if tier == "quick" else 400):
+        c = cc.Case()
+        c.sc, c.profile, c.mode, c.seed = gen.gen_tb_refused_ownership(seed * 1000 + k), "tb_refused_ownership", ("loop" if k % 2 else "dispatch"), seed * 1000 + k
         cases.append(c)
 
     def oracle(case):
